@@ -894,6 +894,17 @@ theorem inv_step (cfg : Cfg) (ok : CfgOK cfg) (st : State) (op : Op) (h : Inv cf
       · cases d.viewonlyPw with
         | none => exact c
         | some s => exact ok.hashNe s
+  | putDev name dn =>
+    simp only [step]
+    have ne : ∀ x, orEmptyHash cfg x ≠ "" := by
+      intro x
+      unfold orEmptyHash
+      split
+      · exact ok.emptyNe
+      · assumption
+    refine ⟨portsInv_of_eq cfg st _ rfl rfl rfl h.ports, ?_, ?_, h.slaves⟩
+    · simp only [bootDevice, saveDevice, resetDevice, Option.getD_some, if_neg (ne _)]
+    · exact ⟨ne _, ne _, ne _⟩
   | putSlaves l =>
     simp only [step]
     exact ⟨portsInv_of_eq cfg st _ rfl rfl rfl h.ports, h.device, h.devWF, rfl⟩
